@@ -79,6 +79,17 @@ def variants(cfgname, ch_this, ch_other, ch_old, accepted_elsewhere=None):
     v["payload_empty_obj"] = ({}, None)
     e3 = auth("K1", ch_this, url)
     v["id_forged"] = (dict(e3, id="ab" * 32), "free")
+    # every tag list of length <= 3 over {good relay, foreign relay, this connection's challenge, another connection's challenge, unrelated}:
+    # an identity needs a good relay tag AND this connection's challenge; lists that also carry a wrong one are left free
+    alpha = {"R": ["relay", url], "r": ["relay", "ws://evil.example:6969"], "C": ["challenge", ch_this], "c": ["challenge", ch_other], "p": ["p", PK["A"]]}
+    for n in (1, 2, 3):
+        for combo in itertools.product(sorted(alpha), repeat=n):
+            word = "".join(combo)
+            if "R" in word and "C" in word:
+                exp = "K1" if ("r" not in word and "c" not in word) else "free"
+            else:
+                exp = None
+            v["tags_" + word] = (auth("K1", ch_this, url, tags=[list(alpha[x]) for x in combo]), exp)
     if accepted_elsewhere is not None:
         # id and sig copied from a genuine AUTH event that another connection got accepted earlier; the rest is for this connection
         v["id_sig_of_accepted_auth"] = (dict(e3, id=accepted_elsewhere["id"], sig=accepted_elsewhere["sig"]), None)
@@ -320,7 +331,8 @@ def coverage(tier, agg):
     return {
         "rule": "variants: %d AUTH payloads derived from a valid one (kind, signature, signer, content, challenge of another / an earlier connection / "
                 "empty / missing / prefix / upper-case / duplicated, extra tags, relay tag missing / other host / substring / single character / empty / "
-                "superstring / other scheme / duplicated, created_at at -601,-600,-599,0,+599,+600,+601 s, short tags, non-object payloads, forged id) "
+                "superstring / other scheme / duplicated, created_at at -601,-600,-599,0,+599,+600,+601 s, short tags, non-object payloads, forged id; every tag list of length <= 3 over {good relay, foreign relay, own challenge, "
+                "another connection's challenge, unrelated tag}) "
                 "on a fresh connection with pre-identity none and K2, relay_urls as list and as the string default; valid answers are replayed on a "
                 "second connection; seq: all sequences of <= %d attempts over %r alternating between two connections; identity observed after every "
                 "attempt through save (role w = K1) and query (role r = K2) probes; challenges must be distinct fresh draws of the secrets source." % (
